@@ -25,6 +25,9 @@ PROGS = {
     # an assertion that only the linker can look at and that has no value there (division by zero): the link fails
     "link_fail_unsolved": ('@db 1, 2\n@assert 10 / zz1 == 2, "no value"\n@db 3\n@defl zz1, 0\n', False),
     "link_fail_range": ('@db 1, 2, 3\n@db big\n@db 4, 5\n@defn big, 300\n', False),
+    # nothing is left for the link step to patch, and the undefined name only stands in a definition nothing uses: the
+    # reference check of the link step still fails the run
+    "link_fail_unused_undef": ('@defl scratch_size, buffer_end - buffer_start\nbuffer_start:\n@db 1, 2, 3\n', False),
     "unsolved_symbol": ('@db 7\n@defl zz, @sizeof qq\nqq:\n@db 8\n', False),
 }
 LIB = "@db $99\n"
@@ -76,7 +79,7 @@ def run(ck):
                "{no -g, -g, --debug, -g into a missing directory} x CPU exporter {none, --gSYM / --gNL, into a missing directory} x "
                "-I {none, -I lib, --include lib, a missing directory} x placement of the global options {before the sub-command, "
                "after the file, between sub-command and file, split, interleaved} plus usage errors (option twice, --gSYM on z80, "
-               "no file).  O (from the property alone): exit 0 exactly when everything requested succeeded (known by "
+               "no file) and runs whose -o / -g / -I / input names are not valid UTF-8.  O (from the property alone): exit 0 exactly when everything requested succeeded (known by "
                "construction), a message otherwise, nothing on stdout / in the -o file and no debug files when assembling or "
                "linking fails, -o bytes = stdout bytes, every placement behaves alike.  K: Cli.run_main / Cli.parse fed with the "
                "full pipeline model's image and export outcomes vs the process (exit status, stdout, -o file).  non-trivial = a "
@@ -414,4 +417,32 @@ def run(ck):
                                           "files": {"main.asm": PROGS[prog][0]}, "expected": "non-zero exit and a message"})
                     finally:
                         shutil.rmtree(d, ignore_errors=True)
+    # ---- file names that are not valid UTF-8 (any name the platform allows can be given): -o / --output, -g, -I and the input
+    # file are honoured all the same; the run succeeds and the -o file holds the image
+    oddruns = []
+    for arch in asmk.ARCHES:
+        for oflag in ("-o", "--output"):
+            for pl in ("before", "after"):
+                oddruns.append((arch, oflag, pl))
+    for arch, oflag, pl in oddruns:
+        d = tempfile.mkdtemp(prefix="az65_c15_").encode()
+        try:
+            os.makedirs(os.path.join(d, b"li\xffb"))
+            open(os.path.join(d, b"ma\xfein.asm"), "w").write(PROGS["ok_inc"][0])
+            open(os.path.join(d, b"li\xffb", b"lib.inc"), "w").write(LIB)
+            g = [oflag.encode(), b"rom\xff.bin", b"-I", b"li\xffb", b"-g", b"sy\xfdm.json"]
+            argv = (g + [arch.encode(), b"ma\xfein.asm"]) if pl == "before" else ([arch.encode(), b"ma\xfein.asm"] + g)
+            p = subprocess.run([az.encode()] + argv, cwd=d, stdout=subprocess.PIPE, stderr=subprocess.PIPE, timeout=60)
+            ck.evaluations += 1
+            ck.count("odd-names:rc=%s" % p.returncode)
+            ofile = os.path.join(d, b"rom\xff.bin")
+            got = open(ofile, "rb").read() if os.path.exists(ofile) else None
+            if p.returncode != 0 or got != KNOWN_BYTES["ok_inc"] or p.stdout or not os.path.exists(os.path.join(d, b"sy\xfdm.json")):
+                ck.violation("`az65 %s` (file names that are not UTF-8) on program ok_inc: exit %s, -o file %s, stdout %d bytes, stderr %r" % (
+                    " ".join(repr(a)[2:-1] for a in argv), p.returncode, "missing" if got is None else got.hex(), len(p.stdout), p.stderr.decode("utf8", "replace")[-160:]),
+                    {"mode": "cli", "argv_hex": [a.hex() for a in argv], "files": {"ma\\xfein.asm": PROGS["ok_inc"][0], "li\\xffb/lib.inc": LIB},
+                     "expected": "exit 0, the -o file holds 11 99 22, the -g file is written"})
+                break
+        finally:
+            shutil.rmtree(d, ignore_errors=True)
     return ck
